@@ -232,14 +232,6 @@ sqfs_dir_iterator_t *dir_tree_iterator_create(const char *path,
 	if (ret)
 		goto fail_oom;
 
-	if (!(cfg->flags & DIR_SCAN_NO_HARDLINKS)) {
-		ret = sqfs_hard_link_filter_create(&dir, it->rec);
-		sqfs_drop(it->rec);
-		it->rec = dir;
-		if (ret)
-			goto fail_oom;
-	}
-
 	sqfs_object_init(it, destroy, NULL);
 	((sqfs_dir_iterator_t *)it)->next = next;
 	((sqfs_dir_iterator_t *)it)->read_link = read_link;
@@ -247,6 +239,23 @@ sqfs_dir_iterator_t *dir_tree_iterator_create(const char *path,
 	((sqfs_dir_iterator_t *)it)->ignore_subdir = ignore_subdir;
 	((sqfs_dir_iterator_t *)it)->open_file_ro = open_file_ro;
 	((sqfs_dir_iterator_t *)it)->read_xattr = read_xattr;
+
+	/*
+	  Detect hard links on what this iterator hands out, not below it:
+	  the recorded link target is then the full, prefixed path, and an
+	  entry that the type/name filters dropped is neither mistaken for
+	  a symlink nor remembered as a link target.
+	 */
+	if (!(cfg->flags & DIR_SCAN_NO_HARDLINKS)) {
+		ret = sqfs_hard_link_filter_create(&dir,
+						   (sqfs_dir_iterator_t *)it);
+		sqfs_drop(it);
+		if (ret) {
+			fprintf(stderr, "%s: out of memory\n", path);
+			return NULL;
+		}
+		return dir;
+	}
 
 	return (sqfs_dir_iterator_t *)it;
 fail_oom:
